@@ -52,8 +52,8 @@ def spell_from_name(name: str, octave: int) -> str | None:
 class C16:
     PROPERTY = 'C16'
     TIERS = {
-        'quick': {'runs': 539 * 100, 'wall_cap_s': 300, 'chunk': 77},
-        'thorough': {'runs': 539 * 2500, 'wall_cap_s': 1500, 'chunk': 539},
+        'quick': {'runs': 539 * 100, 'wall_cap_s': 300, 'chunk': 77, 'opt_leg_runs': 1617},
+        'thorough': {'runs': 539 * 2500, 'wall_cap_s': 1500, 'chunk': 539, 'opt_leg_runs': 6468},
     }
     RULE = ('run i has primary spelling GRID[i % 539] (7 letters x 7 alterations x 11 octaves, so every 539 consecutive runs '
             'visit the whole grid); a seeded history of 8..30 operations on shared codec objects and a pool of pitch objects: '
